@@ -18,7 +18,8 @@ for k in common.known_findings("C16"):
 
 @contextlib.contextmanager
 def level_override(restrictions, pattern=None):
-    """replace level 1 by a single-column table: every key `any` except `restrictions` (as the test suite does)"""
+    """replace level 1 by a synthetic table: every key `any` except `restrictions` (as the test suite does);
+    `restrictions` is one column (a dict) or a LIST of columns (a level whose admissible combinations differ by column)"""
     from vc2_conformance.level_constraints import LEVEL_CONSTRAINTS, LEVEL_SEQUENCE_RESTRICTIONS, LevelSequenceRestrictions
     from vc2_conformance.constraint_table import ValueSet, AnyValue
     from vc2_data_tables import Levels
@@ -30,17 +31,18 @@ def level_override(restrictions, pattern=None):
         for i in reversed(range(len(LEVEL_CONSTRAINTS))):
             if Levels(1) in LEVEL_CONSTRAINTS[i]["level"]:
                 del LEVEL_CONSTRAINTS[i]
-        col = dict((k, AnyValue()) for k in keys)
-        col["level"] = ValueSet(Levels(1))
-        for k, vals in restrictions.items():
-            vs = ValueSet()
-            for v in vals:
-                if isinstance(v, tuple):
-                    vs.add_range(*v)
-                else:
-                    vs.add_value(v)
-            col[k] = vs
-        LEVEL_CONSTRAINTS.append(col)
+        for column in (restrictions if isinstance(restrictions, list) else [restrictions]):
+            col = dict((k, AnyValue()) for k in keys)
+            col["level"] = ValueSet(Levels(1))
+            for k, vals in column.items():
+                vs = ValueSet()
+                for v in vals:
+                    if isinstance(v, (tuple, list)):
+                        vs.add_range(*v)
+                    else:
+                        vs.add_value(v)
+                col[k] = vs
+            LEVEL_CONSTRAINTS.append(col)
         LEVEL_SEQUENCE_RESTRICTIONS[Levels(1)] = LevelSequenceRestrictions("synthetic", pattern or ".*")
         yield
     finally:
@@ -94,7 +96,27 @@ def rand_restrictions(rng):
         "dwt_depth_ho": [[0], [(0, 2)]],
     }
     keys = rng.sample(sorted(menu), rng.choice([1, 1, 2, 3]))
+    if rng.random() < 0.3:
+        # a level with TWO columns that differ in another key (one per profile, or per picture coding mode): the same keys
+        # restricted differently in each - a value must be chosen from the column the configuration falls under
+        split, (a, b) = rng.choice([("profile", ([3], [0])), ("picture_coding_mode", ([0], [1]))])
+        # (not the keys of the recorded finding F8: with several columns a value the encoder never consults selects the
+        #  WRONG column for the validator, and the rejection then names some other key - it could not be attributed)
+        keys = [k for k in keys if k != split and k not in F8_KEYS]
+        cols = []
+        for side in (a, b):
+            col = dict((k, rng.choice(menu[k])) for k in keys)
+            col[split] = side
+            cols.append(col)
+        return cols
     return dict((k, rng.choice(menu[k])) for k in keys)
+
+
+def plain(restr):
+    """JSON-friendly copy of a restriction (one column or a list of columns)"""
+    if isinstance(restr, list):
+        return [plain(c) for c in restr]
+    return dict((k, [list(v) if isinstance(v, tuple) else v for v in vs]) for k, vs in restr.items())
 
 
 PIC = "(low_delay_picture | high_quality_picture | low_delay_picture_fragment | high_quality_picture_fragment)"
@@ -175,7 +197,7 @@ class Prop(object):
     id = "C16"
     lean_modules = ["VC2.Props.C16"]
     status = "partial"
-    rule = ("synthetic single-column level tables (level 1 replaced in-process as the test suite does; 1-3 of 38 keys restricted: flags forced true/false, preset-only or custom-only indices, "
+    rule = ("synthetic level tables of one column, or of TWO columns split by profile or picture coding mode with the same keys restricted differently in each (level 1 replaced in-process as the test suite does; 1-3 of 38 keys restricted: flags forced true/false, preset-only or custom-only indices, "
             "restricted base formats, sizes, wavelets, depths, slice parameters, quantisation-matrix values, versions), each with one of twelve data-unit ORDERING PATTERNS (none; required auxiliary/padding units before, between or after the pictures; a header before every picture; at least one picture; the real levels' pattern) x random small codec configurations x 0-2 frames of pictures (an empty sequence included): either the REAL encoder raises "
             "an unsatisfiable-configuration error or the REAL validator accepts the serialised stream under the same table; plus the REAL level tables: the header the encoder chooses for every row; a rejection naming one of the recorded F8 keys is attributed "
             "to that finding, any other rejection is a violation; plus the real level tables via C03/C15")
@@ -202,12 +224,13 @@ class Prop(object):
             ctx.count("trial:%s" % out.split(":")[0])
             ctx.count("pattern:%s:pictures:%d" % ("none" if pattern is None else "restricted", len(pics)))
             if out.startswith("known:"):
-                self._known.setdefault(out[6:], {"config": G.describe(cf), "restrictions": dict((k, [list(v) if isinstance(v, tuple) else v for v in vs]) for k, vs in restr.items())})
+                self._known.setdefault(out[6:], {"config": G.describe(cf), "restrictions": plain(restr)})
             if out != "encoder-refuses":
-                ctx.distinct.add(hash(json.dumps([G.describe(cf), sorted(restr)], sort_keys=True, default=str)))
+                ctx.distinct.add(hash(json.dumps([G.describe(cf), plain(restr)], sort_keys=True, default=str)))
+                ctx.count("table:%s" % ("two-columns" if isinstance(restr, list) else "one-column"))
             if out == "violation" and not self._bad:
                 self._bad = {"config": G.describe(cf), "pictures": pics, "pattern": pattern,
-                             "restrictions": dict((k, [list(v) if isinstance(v, tuple) else v for v in vs]) for k, vs in restr.items()), "why": detail}
+                             "restrictions": plain(restr), "why": detail}
         self.real_levels(ctx)
 
     def real_levels(self, ctx):
@@ -299,7 +322,7 @@ class Prop(object):
                 continue
             if out == "violation":
                 return {"config": G.describe(cf), "pictures": pics, "pattern": pattern,
-                        "restrictions": dict((k, [list(v) if isinstance(v, tuple) else v for v in vs]) for k, vs in restr.items()), "why": detail}
+                        "restrictions": plain(restr), "why": detail}
         return None
 
     def replay(self, ctx, path):
@@ -323,7 +346,7 @@ class Prop(object):
             print("replay: that row of the level table no longer exists")
             return 1
         cf = CodecFeatures(G.from_description(fi["config"]), level=Levels(1))
-        restr = dict((k, [tuple(v) if isinstance(v, list) else v for v in vs]) for k, vs in fi["restrictions"].items())
+        restr = fi["restrictions"]   # (ranges are lists here: level_override accepts both)
         out, detail = trial(cf, fi["pictures"], restr, fi.get("pattern"))
         print("replay ->", out, detail or "")
         return 1 if out == "violation" else 0
